@@ -71,6 +71,13 @@ def download_chunk_setup(b, guarded=False):
     b.bind('glock', models.lock_cm('glock'))
     files_digests = b.ref('files_digests', sym.DictC(STR, Ref(DIGESTSET)))
     files_metadata = b.ref('files_metadata', sym.DictC(STR, FMETA))
+    b.ref('files_sizes', sym.DictC(STR, INT))
+
+    def os_truncate(interp, st, args, kwargs):
+        st.emit('truncate_path', path=args[0], size=args[1])
+        yield st, None
+
+    b.bind('os', Obj('os', truncate=Model('os.truncate', os_truncate)))
     if guarded:
         for c in (DIGESTSET, sym.DictC(STR, Ref(DIGESTSET)), sym.DictC(STR, FMETA)):
             c.guarded_by = 'glock'
@@ -147,7 +154,7 @@ def download_chunk_loops():
         'For#3': LoopSpec(true_inv, modifies=[('heap', DIGESTSET, 'm'),
                                              ('heap', sym.DictC(STR, FMETA), 'has'),
                                              ('heap', sym.DictC(STR, FMETA), 'n')],
-                          name='finish_loop', types={'restore_path': PATHT, 'metadata': Opt(META)}),
+                          name='finish_loop', types={'restore_path': PATHT, 'metadata': Opt(META), 'finished': BOOL}),
     }
 
 
@@ -200,3 +207,412 @@ def download_chunk_unit(prop, post, guarded=False):
     return Unit(f'{prop}.download_chunk', REPO_PY, 'Repository.restore._download_chunk',
                 lambda b: download_chunk_setup(b, guarded), post, loops=download_chunk_loops(),
                 local_types=DC_LOCALS, prop=prop)
+
+
+# ------------------------------------------------------------------ _write_file_part
+def zeros(n):
+    return UF('zeros', INT, BYTES)(n)
+
+
+class FileModel:
+    """io semantics of one regular file as a byte sequence with a position (assumed, audited)"""
+
+    def __init__(self, b):
+        self.b = b
+
+
+def write_part_setup(b):
+    me = shared.repo_self(b, props=False, cache=False)
+    data = b.sym('data', BYTES)
+    off = b.sym('offset', INT)
+    b.assume(off.z >= 0)
+    exists = sym.const(BOOL, 'target_exists')
+    old = sym.const(BYTES, 'old_content')
+    b.exists, b.old, b.data, b.off = exists, old, data, off
+    b.ghost('content', old)
+    b.ghost('pos', SV(INT, z3.IntVal(0)))
+    b.ghost('exists', exists)
+    FOBJ = models.opaque_type('RWFile')
+
+    def seek(interp, st, args, kwargs):
+        _, offset = args[0], args[1]
+        whence = args[2] if len(args) > 2 else 0
+        n = z3.Length(st.ghost['content'].z)
+        if whence == 0:
+            newpos = sym.lift(offset, INT).z
+        elif whence == 2:
+            newpos = n + sym.lift(offset, INT).z
+        else:
+            raise sym.Unsupported('seek whence')
+        st.ghost['pos'] = SV(INT, newpos)
+        st.emit('seek', pos=SV(INT, newpos))
+        yield st, SV(INT, newpos)
+
+    def truncate(interp, st, args, kwargs):
+        size = sym.lift(args[1], INT).z
+        c = st.ghost['content'].z
+        n = z3.Length(c)
+        new = z3.If(size <= n, z3.SubString(c, 0, size), z3.Concat(c, zeros(size - n)))
+        st.assume(z3.Implies(size > n, z3.Length(zeros(size - n)) == size - n))
+        st.ghost['content'] = SV(BYTES, new)
+        st.emit('truncate', size=SV(INT, size))
+        yield st, SV(INT, size)
+
+    def write(interp, st, args, kwargs):
+        d = sym.lift(args[1], BYTES).z
+        c, pos = st.ghost['content'].z, st.ghost['pos'].z
+        n, ld = z3.Length(c), z3.Length(d)
+        # writing at pos <= len: overwrite/extend (pos > len would zero-fill: excluded by an obligation)
+        interp.oblige(st, 'io.write_within_or_at_end', pos <= n, tag='helper')
+        new = z3.Concat(z3.SubString(c, 0, pos), d, z3.SubString(c, pos + ld, n - (pos + ld)))
+        st.ghost['content'] = SV(BYTES, new)
+        st.ghost['pos'] = SV(INT, pos + ld)
+        st.emit('write', data=args[1], at=SV(INT, pos))
+        yield st, SV(INT, ld)
+
+    FOBJ.attrs = {'seek': MethodModel('seek', seek), 'truncate': MethodModel('truncate', truncate),
+                  'write': MethodModel('write', write)}
+
+    def open_(interp, st, args, kwargs):
+        mode = args[1]
+        if mode == 'r+b':
+            for s, ex in interp.branch(st, st.ghost['exists'].z):
+                if ex:
+                    s.ghost['pos'] = SV(INT, z3.IntVal(0))
+                    s.emit('open', mode=mode)
+                    yield s, CM('rwfile', value=sym.fresh(FOBJ, 'f'))
+                else:
+                    yield s, Raised(Exc('FileNotFoundError'))
+        elif mode == 'wb':
+            st.ghost['content'] = SV(BYTES, z3.StringVal(''))
+            st.ghost['pos'] = SV(INT, z3.IntVal(0))
+            st.ghost['exists'] = SV(BOOL, z3.BoolVal(True))
+            st.emit('open', mode=mode)
+            yield st, CM('rwfile', value=sym.fresh(FOBJ, 'f'))
+        else:
+            raise sym.Unsupported(f'open mode {mode}')
+
+    class OpenedCM(CM):
+        pass
+
+    # `file = path.open(...)` then `with file:` -> the value bound is the CM; methods are called on it
+    def open_returning_file(interp, st, args, kwargs):
+        for s, v in open_(interp, st, args, kwargs):
+            if isinstance(v, Raised):
+                yield s, v
+            else:
+                f = v.value
+                FOBJ.cm_enter = lambda i, s2, cm: iter([(s2, cm)])
+                FOBJ.cm_exit = lambda i, s2, cm, out: iter([(s2, out)])
+                yield s, f
+
+    PATHT.attrs = {'open': MethodModel('open', open_returning_file),
+                   'parent': Obj('parent', mkdir=Model('mkdir', lambda i, s, a, k: iter([(s, None)])))}
+    b.sym('path', PATHT)
+    b.bind('io', Obj('io', SEEK_END=2))
+
+
+def write_part_post(prop):
+    def post(res):
+        b = res.builder
+        old, data, off = b.old.z, b.data.z, b.off.z
+        ld = z3.Length(data)
+        for p in res.paths:
+            sig = ','.join(e.data.get('mode', '') for e in p.events('open')) + '->' + p.kind
+            if p.kind not in ('normal', 'return'):
+                res.oblige(p, f'{prop}.write.total[{sig}]', z3.BoolVal(False))
+                continue
+            new = p.st.ghost['content'].z
+            base = z3.If(b.exists.z, old, z3.StringVal(''))
+            nb = z3.Length(base)
+            # frame + effect: new = base[:off] ++ data ++ base[off+len:], zero-extended up to off
+            res.oblige(p, f'{prop}.write.data_lands_at_offset[{sig}]', z3.SubString(new, off, ld) == data)
+            res.oblige(p, f'{prop}.write.length[{sig}]', z3.Length(new) == z3.If(nb > off + ld, nb, off + ld))
+            res.oblige(p, f'{prop}.write.prefix_preserved[{sig}]', z3.Implies(
+                off <= nb, z3.SubString(new, 0, off) == z3.SubString(base, 0, off)))
+            res.oblige(p, f'{prop}.write.suffix_preserved[{sig}]', z3.Implies(
+                nb > off + ld, z3.SubString(new, off + ld, nb - off - ld) == z3.SubString(base, off + ld, nb - off - ld)))
+    return post
+
+
+def write_part_unit(prop):
+    return Unit(f'{prop}.write_file_part', REPO_PY, 'Repository._write_file_part', write_part_setup,
+                write_part_post(prop), prop=prop)
+
+
+# ------------------------------------------------------------------ the planning loop of restore()
+from specs.shared import SNAPDATA, BODY, CHUNKLIST, chunk_at, chunk_len, chunkset, body_chunks, body_data
+from specs import snapbody
+
+ENTRYREC = Cls('EntryRec', {'range': List(INT), 'index': INT, 'counter': INT}, keyed=True)
+FILEREC = Cls('FileRec', {'path': STR, 'chunks': List(Ref(ENTRYREC)), 'digest': Opt(BYTES),
+                          'metadata': Opt(META)}, keyed=True)
+REFS = sym.DictC(BYTES, List(REF))
+REFS.default = lambda interp, st: ops.new_list(st, REF, [])
+PARTS = models.opaque_type('PathParts')
+
+
+def files_of(z):
+    return UF('files_of', SNAPDATA, INT)(z)
+
+
+def _snapdata_getitem(interp, st, v, idx):
+    if idx == 'files':
+        yield st, SV(List(Ref(FILEREC)), files_of(v.z))
+    elif idx == 'utc_timestamp':
+        yield st, SV(STR, UF('utc_timestamp', SNAPDATA, STR)(v.z))
+    else:
+        raise sym.Unsupported(f'snapshot_data[{idx!r}]')
+
+
+SNAPDATA.getitem = _snapdata_getitem
+
+
+def restore_to_fn(base, file_path):
+    return UF('restore_to', PATHT, STR, PATHT)(base, file_path)
+
+
+def psum(lst, k):
+    """ghost: sum of the sizes of the first k refs of an ordered chunk list"""
+    return UF('psum', INT, INT, INT)(lst, k)
+
+
+def plan_setup(b):
+    me = shared.repo_self(b, props=False, cache=False)
+    h = b.st.heap
+    snaps = b.ref('snapshots', sym.ListC(BODY))
+    b.snaps = snaps
+    LB = sym.ListC(BODY)
+    n = h.read(LB, 'len', snaps.z)
+    arr = h.read(LB, 'arr', snaps.z)
+    b.assume(n >= 0)
+    i = z3.Int('pl_i')
+    # every body in the plan is readable (restore filters `data is not None`: obligation C06.restore.own_only)
+    b.assume(z3.ForAll([i], z3.Implies(z3.And(0 <= i, i < n), z3.Not(Opt(SNAPDATA).is_none(body_data(z3.Select(arr, i)))))))
+    b.sym('file_re', Opt(snapbody.REGEX))
+    b.sym('path', PATHT)
+    b.ref('chunks_references', REFS)
+    b.ref('files_digests', sym.DictC(STR, Ref(DIGESTSET)))
+    b.ref('files_metadata', sym.DictC(STR, FMETA))
+    b.ref('files_sizes', sym.DictC(STR, INT))
+    b.sym('total_bytes', INT)
+    for c in (DIGESTSET, sym.DictC(STR, Ref(DIGESTSET)), sym.DictC(STR, FMETA)):
+        c.guarded_by = None
+    # format invariant of recorded entries: range = [r0, r1] (two integers)
+    r = z3.Int('pl_r')
+    LI = sym.ListC(INT)
+    b.assume(z3.ForAll([r], h.read(LI, 'len', h.read(ENTRYREC, 'range', r)) == 2))
+    # well-formed heap: list lengths are non-negative
+    b.assume(z3.ForAll([r], h.read(sym.ListC(Ref(ENTRYREC)), 'len', r) >= 0))
+    b.assume(z3.ForAll([r], h.read(sym.ListC(Ref(FILEREC)), 'len', r) >= 0))
+    b.assume(z3.ForAll([r], h.read(sym.ListC(REF), 'len', r) >= 0))
+    # all input objects live below the allocation frontier
+    b.assume(z3.ForAll([r], z3.And(h.read(FILEREC, 'chunks', r) < b.st.alloc_base, h.read(ENTRYREC, 'range', r) < b.st.alloc_base)))
+
+    def path_ctor(interp, st, args, kwargs):
+        if len(args) == 1 and not isinstance(args[0], sym.ops_StarArg if False else tuple):
+            a0 = args[0]
+            if isinstance(a0, SV) and a0.ty == STR:
+                yield st, SV(PATHT, UF('path_of_str', STR, PATHT)(a0.z))
+                return
+        if len(args) == 2:
+            from vf.interp import StarArg
+            base, rest = args
+            if isinstance(rest, StarArg) and isinstance(rest.v, SV) and rest.v.ty == PARTS:
+                src = UF('parts_source', PARTS, STR)(rest.v.z)
+                st.emit('restore_to', base=base, source=SV(STR, src))
+                yield st, SV(PATHT, restore_to_fn(base.z, src))
+                return
+        raise sym.Unsupported('Path(...) form')
+
+    def parts_prop(interp, st, v):
+        # Path(s).parts: an opaque sequence that remembers its source string
+        src = UF('str_of_path', PATHT, STR)(v.z)
+        p = sym.fresh(PARTS, 'parts')
+        st.assume(UF('parts_source', PARTS, STR)(p.z) == src)
+        st.assume(UF('parts_from', PARTS, INT)(p.z) == 0)
+        yield st, p
+
+    def parts_slice(interp, st, v, lo, hi):
+        if lo != 1 or hi is not None:
+            raise sym.Unsupported('parts slice')
+        p = sym.fresh(PARTS, 'parts1')
+        st.assume(UF('parts_source', PARTS, STR)(p.z) == UF('parts_source', PARTS, STR)(v.z))
+        st.assume(UF('parts_from', PARTS, INT)(p.z) == 1)
+        yield st, p
+
+    PARTS.getslice = parts_slice
+    PATHT.attrs = dict(getattr(PATHT, 'attrs', {}))
+    PATHT.attrs.update({'parts': ops.Property(parts_prop),
+                        'resolve': MethodModel('resolve', lambda i, s, a, k: iter([(s, a[0])]))})
+    b.bind('Path', Model('Path', path_ctor))
+    # path_of_str / str_of_path are inverse
+    x = z3.Const('pl_x', z3.StringSort())
+    b.assume(z3.ForAll([x], UF('str_of_path', PATHT, STR)(UF('path_of_str', STR, PATHT)(x)) == x))
+
+
+def plan_loops(b_holder):
+    def files_keys(st):
+        fd = st.lookup('files_digests')
+        return st.heap.read(sym.DictC(STR, Ref(DIGESTSET)), 'has', fd.z)
+
+    def inv_outer(ctx):
+        return ctx.k <= ctx.n
+
+    def inv_files(ctx):
+        # keys are only ever added (first occurrence wins: nothing planned earlier is disturbed)
+        E = ctx.entry
+        has0, has1 = files_keys(E), files_keys(ctx.st)
+        p = z3.Const('pf_p', z3.StringSort())
+        fm = sym.DictC(STR, FMETA)
+        m0 = E.heap.read(fm, 'val', E.lookup('files_metadata').z)
+        m1 = ctx.st.heap.read(fm, 'val', ctx.st.lookup('files_metadata').z)
+        return z3.And(ctx.k <= ctx.n,
+                      z3.ForAll([p], z3.Implies(z3.Select(has0, p), z3.And(z3.Select(has1, p), z3.Select(m1, p) == z3.Select(m0, p)))))
+
+    def inv_chunks(ctx):
+        st = ctx.st
+        oc_ = ctx.entry.lookup('ordered_chunks').z
+        return z3.And(ctx.k <= ctx.n, ctx.v('chunk_position') == psum(oc_, ctx.k))
+
+    all_mod = [
+        ('heap', REFS, 'has'), ('heap', REFS, 'val'), ('heap', REFS, 'n'), ('heap', REFS, 'order'),
+        ('heap', sym.ListC(REF), 'arr'), ('heap', sym.ListC(REF), 'len'),
+        ('heap', DIGESTSET, 'm'),
+    ]
+    dict_mod = lambda c: [('heap', c, 'has'), ('heap', c, 'val'), ('heap', c, 'n'), ('heap', c, 'order')]
+    files_mod = all_mod + dict_mod(sym.DictC(STR, Ref(DIGESTSET))) + dict_mod(sym.DictC(STR, FMETA)) + dict_mod(sym.DictC(STR, INT)) + [
+        ('heap', sym.ListC(Ref(ENTRYREC)), 'arr'), ('heap', sym.ListC(Ref(ENTRYREC)), 'len')]
+    def psum_axioms(ctx):
+        st = ctx.st
+        h = st.heap
+        oc_ = st.lookup('ordered_chunks').z
+        k = z3.Int('ps_k')
+        LI = sym.ListC(INT)
+        ent = lambda kk: ctx.elem(kk).z
+        rng = lambda kk: h.read(ENTRYREC, 'range', ent(kk))
+        size = lambda kk: z3.Select(h.read(LI, 'arr', rng(kk)), 1) - z3.Select(h.read(LI, 'arr', rng(kk)), 0)
+        return [psum(oc_, 0) == 0,
+                z3.ForAll([k], z3.Implies(k >= 0, psum(oc_, k + 1) == psum(oc_, k) + size(k)))]
+
+    l3 = LoopSpec(inv_chunks, modifies=all_mod, name='For#3')
+    l3.at_entry = psum_axioms
+    return {
+        'For#1': LoopSpec(inv_outer, modifies=files_mod, name='For#1',
+                          types={}),
+        'For#2': LoopSpec(inv_files, modifies=files_mod, name='For#2'),
+        'For#3': l3,
+    }
+
+
+def plan_post(prop):
+    def post(res):
+        b = res.builder
+        LI = sym.ListC(INT)
+        n_inner = 0
+        # ---- For#3: one ref per recorded chunk entry, offsets are the partial sums (C01.plan.offsets)
+        for p in res.body_paths('For#3'):
+            st = p.st
+            if p.kind not in ('normal', 'continue'):
+                if p.kind == 'raise' and p.value.cls == 'IndexError':
+                    continue     # index outside the chunk table: restore fails loudly (format violation)
+                res.oblige(p, f'{prop}.plan.inner_total[{p.kind}]', z3.BoolVal(False))
+                continue
+            n_inner += 1
+            apps = [e for e in p.events('list_append') if e.data['target'].ty == List(REF)]
+            res.oblige(p, f'{prop}.plan.one_ref_per_entry', z3.BoolVal(len(apps) == 1))
+            if len(apps) != 1:
+                continue
+            t = apps[0].data['value'].z
+            cd = st.lookup('chunk_data').z
+            h = st.heap
+            rng = h.read(ENTRYREC, 'range', cd)
+            r0, r1 = z3.Select(h.read(LI, 'arr', rng), 0), z3.Select(h.read(LI, 'arr', rng), 1)
+            oc_ = st.lookup('ordered_chunks').z
+            kk = [v for k_, v in st.ghost.items()]
+            fpath = st.lookup('file_path').z
+            res.oblige(p, f'{prop}.plan.ref_size_is_range_length', REF.proj(t, 1) == r1 - r0)
+            res.oblige(p, f'{prop}.plan.ref_chunk_offset_is_range_start', REF.proj(t, 3) == r0)
+            res.oblige(p, f'{prop}.plan.ref_path', REF.proj(t, 0) == fpath)
+            # file offset = sum of the sizes of the refs before it in counter order
+            srt = [e for e in p.events('sorted')]
+            kq = [x for x in st.pc if False]
+            res.oblige(p, f'{prop}.plan.file_offset_is_partial_sum',
+                       z3.Exists([z3.Int('kx')], z3.And(z3.Int('kx') >= 0, REF.proj(t, 2) == psum(oc_, z3.Int('kx')),
+                                                      st.lookup('chunk_position').z == psum(oc_, z3.Int('kx') + 1))))
+            # digest comes from the snapshot's own chunk table at the recorded index, and the ref is filed under it
+            dg = st.lookup('digest').z
+            sc = st.lookup('snapshot_chunks').z
+            res.oblige(p, f'{prop}.plan.digest_is_table_entry', dg == chunk_at(sc, h.read(ENTRYREC, 'index', cd)))
+            refs_d = sym.DictC(BYTES, List(REF))
+            crefs = st.lookup('chunks_references').z
+            res.oblige(p, f'{prop}.plan.ref_filed_under_digest', z3.And(
+                z3.Select(h.read(REFS, 'has', crefs), dg),
+                apps[0].data['target'].z == z3.Select(h.read(REFS, 'val', crefs), dg)))
+            fds = st.lookup('digests').z
+            res.oblige(p, f'{prop}.plan.digest_pending_for_file', z3.Select(h.read(DIGESTSET, 'm', fds), dg))
+        res.oblige([], f'{prop}.plan.inner_iterations_checked', z3.BoolVal(n_inner >= 1))
+        # ---- For#2: which files are planned (C15.restore.selects_newest, first occurrence wins)
+        n_files = 0
+        for p in res.body_paths('For#2'):
+            st = p.st
+            E = None
+            fd = st.lookup('file_data').z
+            fpath = st.heap.read(FILEREC, 'path', fd)
+            stores = [e for e in p.events('dict_store')]
+            planned = [e for e in stores if e.data['target'].ty == Dict(STR, FMETA)]
+            rx = st.lookup('file_re')
+            filtered = z3.And(z3.Not(rx.ty.is_none(rx.z)),
+                              Opt(snapbody.MATCH).is_none(snapbody.re_search(rx.ty.val(rx.z), fpath)))
+            if p.kind == 'raise':
+                continue
+            n_files += 1
+            if planned:
+                e = planned[0]
+                pc = p.pc_at(e)
+                res.oblige(pc, f'{prop}.plan.planned_only_if_matching_and_new', z3.Not(filtered))
+                res.oblige(pc, f'{prop}.plan.planned_key_is_this_path', sym.lift(e.data['key'], STR).z == fpath)
+                for e2 in stores:
+                    res.oblige(p.pc_at(e2), f'{prop}.plan.stores_only_under_this_path',
+                               z3.Or(sym.lift(e2.data['key'], STR).z == fpath, z3.BoolVal(e2.data['target'].ty == Dict(BYTES, List(REF)))))
+                # refs are walked in counter order (the order in which the chunks followed each other in the stream)
+                for se in p.events('sorted'):
+                    x = z3.Int('so_x')
+                    res.oblige(p.pc_at(se), f'{prop}.plan.refs_in_counter_order', z3.And(
+                        se.data['keyf'](x) == p.st.heap.read(ENTRYREC, 'counter', x),
+                        se.data['source'].z == p.st.heap.read(FILEREC, 'chunks', fd)))
+                # restore target = base path + recorded path without its root
+                rt = [x for x in p.events('restore_to')]
+                res.oblige(pc, f'{prop}.plan.restore_to_from_recorded_path', z3.BoolVal(len(rt) == 1) if not rt else z3.And(
+                    rt[0].data['source'].z == fpath, rt[0].data['base'].z == st.lookup('path').z))
+                # the recorded size is the sum of all ref sizes, total_bytes grows by it
+                if p.kind in ('normal', 'continue'):
+                    fs = st.lookup('files_sizes').z
+                    dsz = sym.DictC(STR, INT)
+                    ocl = st.lookup('ordered_chunks').z
+                    nn = st.heap.read(sym.ListC(Ref(ENTRYREC)), 'len', ocl)
+                    res.oblige(p, f'{prop}.plan.file_size_is_sum_of_refs', z3.And(
+                        z3.Select(st.heap.read(dsz, 'has', fs), fpath),
+                        z3.Select(st.heap.read(dsz, 'val', fs), fpath) == psum(ocl, nn)))
+            else:
+                # skipped: already planned from a newer snapshot, or filtered out; nothing is touched
+                res.oblige(p, f'{prop}.plan.skip_touches_nothing', z3.BoolVal(not stores and not p.events('list_append')))
+        res.oblige([], f'{prop}.plan.file_iterations_checked', z3.BoolVal(n_files >= 3))
+    return post
+
+
+def plan_unit(prop):
+    holder = {}
+
+    def setup(b):
+        plan_setup(b)
+        holder['b'] = b
+
+    loops = plan_loops(holder)
+    # definitional axioms of the ghost partial sums, instantiated for the list being walked
+    def at_start_axioms(ctx):
+        return []
+
+    u = Unit(f'{prop}.restore_plan', REPO_PY, 'Repository.restore', setup, plan_post(prop), loops=loops,
+             stmt='For#1', local_types={'digests': Set(BYTES)}, prop=prop)
+    return u
